@@ -629,7 +629,8 @@ pub fn emit_tok(ctx: &mut Ctx, op: &str, kind: &Kind, c: &Common, s: &str, ign: 
     enc_kind(&mut v, kind);
     enc_common(&mut v, c);
     v.push(ign as u64);
-    match build(kind, c, g_byte) {
+    // a constructor that panics is reproduced (and reported) by the exec side under catch_unwind
+    match std::panic::catch_unwind(std::panic::AssertUnwindSafe(|| build(kind, c, g_byte))).ok().flatten() {
         Some(b) => {
             let pieces = ref_split(&b.specials, s, ign);
             enc_pieces(&mut v, &pieces, b.g);
